@@ -473,19 +473,612 @@ Proof.
 Qed.
 
 Lemma disjoint_filters {A} (p q : string * A -> bool) m :
-  (forall x, p x && q x = false) -> NoDup (map fst m) ->
+  (forall x, In x m -> p x && q x = false) -> NoDup (map fst m) ->
   forall k, In k (map fst (filter p m)) -> ~ In k (map fst (filter q m)).
 Proof.
   intros D ND k H1 H2.
   apply in_map_iff in H1 as [x [E1 Hx]]. apply in_map_iff in H2 as [y [E2 Hy]].
   apply filter_In in Hx as [Hx Px]. apply filter_In in Hy as [Hy Qy].
   assert (x = y) by (apply (nodup_fst_inj m); congruence). subst y.
-  specialize (D x). rewrite Px, Qy in D. discriminate.
+  specialize (D x Hx). rewrite Px, Qy in D. discriminate.
 Qed.
 
 Lemma nodup_app_filters {A} (p q : string * A -> bool) m :
-  (forall x, p x && q x = false) -> NoDup (map fst m) ->
+  (forall x, In x m -> p x && q x = false) -> NoDup (map fst m) ->
   NoDup (map fst (filter p m) ++ map fst (filter q m)).
 Proof.
   intros D ND. apply NoDup_app_intro; try now apply nodup_filter. now apply disjoint_filters.
 Qed.
+
+(* ================================================================================================ *)
+(* D. hypotheses of the theorems and the per-field effect lemma                                     *)
+(* ================================================================================================ *)
+
+(* the values passed have the kind of their field; dict values have distinct keys *)
+Definition kw_wf (m : fm) (kw : kwargs) : Prop :=
+  forall kf v, In kf m -> assoc (r_name (snd kf)) kw = Some v ->
+    kind_ok (kind_of (snd kf)) v = true /\ (forall d, v = LD d -> NoDup (map fst d)).
+
+(* no empty list / dict is passed for a field reached through a dotted path *)
+Definition no_empty_dotted (m : fm) (kw : kwargs) : Prop :=
+  forall kf v, In kf m -> assoc (r_name (snd kf)) kw = Some v -> dotted (fst kf) = true ->
+    (kind_of (snd kf) = KList \/ kind_of (snd kf) = KMap) -> truthy v = true.
+
+(* the asyncio client builds a cross-package request by keyword: every flattened key must be a top-level field *)
+Definition ctor_ok (m : fm) (inf : list string) : Prop :=
+  forall kf, In kf m -> fst kf = r_name (snd kf) /\ In (r_name (snd kf)) inf /\ dotted (fst kf) = false.
+
+Lemma map_put_fresh kk vv acc : ~ In kk (map fst acc) -> map_put kk vv acc = acc ++ [(kk, vv)].
+Proof.
+  induction acc as [|[k' v'] acc IH]; intro H; simpl; [reflexivity|].
+  destruct (String.eqb kk k') eqn:E.
+  - apply String.eqb_eq in E. subst. exfalso. apply H. now left.
+  - rewrite IH; [reflexivity|]. intro Hin. apply H. now right.
+Qed.
+
+Lemma map_merge_fresh d : forall acc, NoDup (map fst (acc ++ d)) -> map_merge acc d = acc ++ d.
+Proof.
+  unfold map_merge. induction d as [|[k v] d IH]; intros acc ND; simpl; [now rewrite app_nil_r|].
+  rewrite map_put_fresh.
+  - rewrite IH; [now rewrite <- app_assoc|]. now rewrite <- app_assoc.
+  - rewrite map_app in ND. simpl in ND. apply NoDup_remove_2 in ND. intro H. apply ND. apply in_or_app. now left.
+Qed.
+
+Lemma map_merge_nil d : NoDup (map fst d) -> map_merge [] d = d.
+Proof. intro H. now apply (map_merge_fresh d []). Qed.
+
+Lemma not_dotted_prefixes k : dotted k = false -> prefixes k = [].
+Proof. unfold dotted. destruct (prefixes k); [reflexivity|discriminate]. Qed.
+
+Lemma kind_ok_list v : kind_ok KList v = true -> exists l, v = LL l.
+Proof. destruct v; simpl; try discriminate. eauto. Qed.
+Lemma kind_ok_map v : kind_ok KMap v = true -> exists d, v = LD d.
+Proof. destruct v; simpl; try discriminate. eauto. Qed.
+
+(* an application emitted for a field acts, on a still-unset key, like the plain assignment of the value *)
+Lemma eff_same m kw kf a :
+  In kf m -> kw_wf m kw -> no_empty_dotted m kw -> app_for kf a ->
+  let s := mk_app GNotNone Assign 0 kf in
+  stored (eff a kw) = stored (eff s kw) /\
+  (forall p, touched (eff a kw) && mem_str p (prefixes (ap_key a)) = touched (eff s kw) && mem_str p (prefixes (ap_key s))).
+Proof.
+  intros Hin W E (Hp & Hk & Hkind & Hpres & Hc). simpl.
+  unfold eff, fires. simpl. rewrite Hp, Hk.
+  destruct (assoc (r_name (snd kf)) kw) as [v|] eqn:Ea; [|split; reflexivity].
+  destruct (W kf v Hin Ea) as [Wk Wd]. specialize (E kf v Hin Ea).
+  unfold combo_ok in Hc. destruct (ap_act a) eqn:Act.
+  - rewrite Hc. simpl. rewrite Hpres. split; reflexivity.
+  - rewrite Hkind in Hc. rewrite Hc in Wk. destruct (kind_ok_list v Wk) as [l ->].
+    destruct (ap_guard a); simpl.
+    + split; reflexivity.
+    + destruct l as [|x l]; simpl.
+      * split; [reflexivity|]. intro p.
+        destruct (dotted (fst kf)) eqn:D.
+        -- specialize (E eq_refl (or_introl Hc)). discriminate.
+        -- now rewrite (not_dotted_prefixes _ D).
+      * split; reflexivity.
+  - rewrite Hkind in Hc. rewrite Hc in Wk. destruct (kind_ok_map v Wk) as [d ->].
+    pose proof (map_merge_nil d (Wd d eq_refl)) as MM.
+    assert (X : forall p, d = [] -> mem_str p (prefixes (fst kf)) = false).
+    { intros p ->. destruct (dotted (fst kf)) eqn:D.
+      - specialize (E eq_refl (or_intror Hc)). discriminate.
+      - now rewrite (not_dotted_prefixes _ D). }
+    destruct d as [|x d].
+    + destruct (ap_guard a); simpl; (split; [reflexivity|]); intro p; rewrite (X p eq_refl); now rewrite ?andb_false_r.
+    + destruct (ap_guard a); cbn [guard_ok truthy is_nil negb]; rewrite MM; split; reflexivity.
+Qed.
+
+(* an application list that covers the mapping: distinct keys, one application per field *)
+Definition covers (m : fm) (l : list app) : Prop :=
+  NoDup (map ap_key l) /\
+  (forall a, In a l -> exists kf, In kf m /\ app_for kf a) /\
+  (forall kf, In kf m -> exists a, In a l /\ ap_key a = fst kf).
+
+Lemma covers_for m l kf a :
+  NoDup (map fst m) -> covers m l -> In kf m -> In a l -> ap_key a = fst kf -> app_for kf a.
+Proof.
+  intros ND (_ & C & _) Hkf Ha E. destruct (C a Ha) as [kf' [Hkf' F]].
+  assert (kf' = kf). { apply (nodup_fst_inj m); try assumption. destruct F as (_ & K & _). congruence. }
+  now subst.
+Qed.
+
+Lemma covers_same_effects m kw l1 l2 :
+  NoDup (map fst m) -> kw_wf m kw -> no_empty_dotted m kw -> covers m l1 -> covers m l2 -> same_effects kw l1 l2.
+Proof.
+  intros ND W E C1 C2 a1 Ha1.
+  destruct C1 as (N1 & F1 & G1). destruct (F1 a1 Ha1) as [kf [Hkf A1]].
+  destruct C2 as (N2 & F2 & G2). destruct (G2 kf Hkf) as [a2 [Ha2 K2]].
+  assert (A2 : app_for kf a2) by (apply (covers_for m l2); try assumption; repeat split; assumption).
+  exists a2. split; [assumption|].
+  destruct (eff_same m kw kf a1 Hkf W E A1) as [S1 T1].
+  destruct (eff_same m kw kf a2 Hkf W E A2) as [S2 T2].
+  destruct A1 as (_ & K1 & _). split; [congruence|]. split; [congruence|].
+  intro p. rewrite T1, T2. reflexivity.
+Qed.
+
+Lemma covers_equiv m kw l1 l2 :
+  NoDup (map fst m) -> kw_wf m kw -> no_empty_dotted m kw -> covers m l1 -> covers m l2 ->
+  req_equiv (run_apps l1 kw empty_req) (run_apps l2 kw empty_req).
+Proof.
+  intros ND W E C1 C2. apply run_apps_equiv.
+  - apply C1. - apply C2.
+  - now apply (covers_same_effects m). - now apply (covers_same_effects m).
+Qed.
+
+Lemma covers_typed m kw l : kw_wf m kw -> covers m l -> apps_typed l kw = true.
+Proof.
+  intros W (_ & F & _). unfold apps_typed. apply forallb_forall. intros a Ha.
+  destruct (F a Ha) as [kf [Hkf (Hp & _ & Hkind & _)]].
+  unfold fires. rewrite Hp. destruct (assoc (r_name (snd kf)) kw) as [v|] eqn:Ea; [|reflexivity].
+  destruct (guard_ok (ap_guard a) v); [|reflexivity]. rewrite Hkind. now apply (W kf v Hkf Ea).
+Qed.
+
+(* --- the three emitted lists and the specification list cover the mapping --- *)
+Lemma covers_spec m : NoDup (map fst m) -> covers m (spec_apps m).
+Proof.
+  intro ND. unfold spec_apps. split; [|split].
+  - rewrite map_map. simpl. exact ND.
+  - intros a Ha. apply in_map_iff in Ha as [kf [<- Hkf]]. exists kf. split; [assumption|]. now apply mk_app_for.
+  - intros kf Hkf. exists (mk_app GNotNone Assign 0 kf). split; [now apply in_map|reflexivity].
+Qed.
+
+Lemma covers_sync m cross pp inf :
+  NoDup (map fst m) -> fm_wf m -> covers m (b_apps (emit_sync m cross pp inf)).
+Proof.
+  intros ND WF. unfold emit_sync. simpl.
+  set (p := fun kf : string * rfield => negb (r_repeated (snd kf)) || negb cross).
+  set (q := fun kf : string * rfield => r_repeated (snd kf) && cross).
+  set (f1 := fun kf : string * rfield => mk_app GNotNone (if r_struct_value (snd kf) && r_repeated (snd kf) then Extend else Assign) 0 kf).
+  assert (K1 : map ap_key (map f1 (filter p m)) = map fst (filter p m)) by (rewrite map_map; reflexivity).
+  split; [|split].
+  - rewrite map_app, K1, sync_cross_rep_keys. apply nodup_app_filters; [|assumption].
+    intros x _. unfold p, q. destruct (r_repeated (snd x)), cross; reflexivity.
+  - intros a Ha. apply in_app_or in Ha as [Ha|Ha].
+    + apply in_map_iff in Ha as [kf [<- Hkf]]. apply filter_In in Hkf as [Hkf _]. exists kf. split; [assumption|].
+      unfold f1. apply mk_app_for.
+      destruct (r_struct_value (snd kf) && r_repeated (snd kf)) eqn:E; [|reflexivity].
+      apply andb_true_iff in E as [E1 E2]. apply kind_list; auto. apply wf_struct; auto.
+    + destruct (sync_cross_rep_for true _ a Ha) as [kf [Hkf [K F]]].
+      apply filter_In in Hkf as [Hkf Q]. unfold q in Q. apply andb_true_iff in Q as [R _].
+      exists kf. split; [assumption|]. apply F; auto.
+  - intros kf Hkf. destruct (p kf) eqn:P.
+    + exists (f1 kf). split; [|reflexivity]. apply in_or_app. left. apply in_map. apply filter_In. now split.
+    + assert (Q : q kf = true). { unfold p, q in *. destruct (r_repeated (snd kf)), cross; simpl in *; congruence. }
+      destruct (sync_cross_rep_has true (filter q m) kf) as [a [Ha E]]; [apply filter_In; now split|].
+      exists a. split; [|assumption]. apply in_or_app. now right.
+Qed.
+
+Lemma keys_mk_app g a s (l : fm) : map ap_key (map (mk_app g a s) l) = map fst l.
+Proof. rewrite map_map. apply map_ext. reflexivity. Qed.
+
+Lemma covers_async m pp inf :
+  NoDup (map fst m) -> fm_wf m -> covers m (b_apps (emit_async m false pp inf)).
+Proof.
+  intros ND WF. unfold emit_async. simpl.
+  set (p1 := fun kf : string * rfield => negb (r_repeated (snd kf)) && true).
+  set (p2 := fun kf : string * rfield => r_map (snd kf) && true).
+  set (p3 := fun kf : string * rfield => r_repeated (snd kf) && negb (r_map (snd kf)) && true).
+  assert (MR : forall kf, In kf m -> r_map (snd kf) = true -> r_repeated (snd kf) = true).
+  { intros kf Hkf M. specialize (WF kf Hkf). unfold rfield_wf in WF. rewrite M in WF. simpl in WF.
+    destruct (r_repeated (snd kf)); [reflexivity|discriminate]. }
+  split; [|split].
+  - rewrite !map_app, !keys_mk_app.
+    apply NoDup_app_intro.
+    + now apply nodup_filter.
+    + apply nodup_app_filters; [|assumption]. intros x _. unfold p2, p3. destruct (r_map (snd x)), (r_repeated (snd x)); reflexivity.
+    + intros k H1 H2. apply in_app_or in H2 as [H2|H2].
+      * revert H2. apply (disjoint_filters p1 p2 m); try assumption.
+        intros x Hx. unfold p1, p2. destruct (r_map (snd x)) eqn:M; [|now rewrite andb_false_r].
+        rewrite (MR x Hx M). reflexivity.
+      * revert H2. apply (disjoint_filters p1 p3 m); try assumption.
+        intros x _. unfold p1, p3. destruct (r_repeated (snd x)); reflexivity.
+  - intros a Ha. apply in_app_or in Ha as [Ha|Ha]; [|apply in_app_or in Ha as [Ha|Ha]];
+      apply in_map_iff in Ha as [kf [<- Hkf]]; apply filter_In in Hkf as [Hkf P]; exists kf; (split; [assumption|]); apply mk_app_for.
+    + reflexivity.
+    + unfold p2 in P. rewrite andb_true_r in P. now apply kind_map.
+    + unfold p3 in P. rewrite andb_true_r in P. apply andb_true_iff in P as [R M]. apply negb_true_iff in M. apply kind_list; auto.
+  - intros kf Hkf. destruct (r_repeated (snd kf)) eqn:R; [destruct (r_map (snd kf)) eqn:M|].
+    + exists (mk_app GTruthy Update 0 kf). split; [|reflexivity]. apply in_or_app. right. apply in_or_app. left.
+      apply in_map. apply filter_In. split; [assumption|]. unfold p2. now rewrite M.
+    + exists (mk_app GTruthy Extend 0 kf). split; [|reflexivity]. apply in_or_app. right. apply in_or_app. right.
+      apply in_map. apply filter_In. split; [assumption|]. unfold p3. now rewrite R, M.
+    + exists (mk_app GNotNone Assign 0 kf). split; [|reflexivity]. apply in_or_app. left.
+      apply in_map. apply filter_In. split; [assumption|]. unfold p1. now rewrite R.
+Qed.
+
+Definition ctor_list (m : fm) : list app := map (fun kf => mk_app GNotNone Assign 0 (r_name (snd kf), snd kf)) m.
+
+Lemma covers_ctor m inf : NoDup (map fst m) -> ctor_ok m inf -> covers m (ctor_list m).
+Proof.
+  intros ND C. unfold ctor_list. split; [|split].
+  - rewrite map_map. simpl. rewrite (map_ext_in _ fst); [assumption|]. intros kf Hkf. symmetry. now apply C.
+  - intros a Ha. apply in_map_iff in Ha as [kf [<- Hkf]]. exists kf. split; [assumption|].
+    destruct (C kf Hkf) as (E & _). unfold app_for, mk_app, combo_ok. simpl. repeat split; auto.
+  - intros kf Hkf. eexists. split; [apply in_map; eassumption|]. simpl. symmetry. now apply C.
+Qed.
+
+Lemma async_cross_no_apps m pp inf : b_apps (emit_async m true pp inf) = [].
+Proof.
+  unfold emit_async. simpl.
+  assert (F : forall (g : string * rfield -> bool), filter (fun kf => g kf && false) m = []).
+  { intro g. induction m as [|x m IH]; simpl; [reflexivity|]. now rewrite andb_false_r. }
+  now rewrite !F.
+Qed.
+
+(* ================================================================================================ *)
+(* E. the theorems                                                                                  *)
+(* ================================================================================================ *)
+
+Definition apply_apps (l : list app) (kw : kwargs) (r : req) : outcome :=
+  if apps_typed l kw then OSend (run_apps l kw r) else ORaiseType.
+Definition finish_ (b : block) (kw : kwargs) (fresh : bool) (r : req) : outcome :=
+  match b_place b with
+  | PInFresh => if fresh then apply_apps (b_apps b) kw r else OSend r
+  | PTop => apply_apps (b_apps b) kw r
+  end.
+Definition build_ (b : block) (kw : kwargs) (ctor : list app) : outcome :=
+  if ctor_names_ok b ctor then apply_apps ctor kw empty_req else ORaiseCtor.
+Definition given (ra : rarg) : bool := match ra with RNone => false | _ => true end.
+Definition has_flat (b : block) (kw : kwargs) : bool :=
+  match b_guard b with Some ps => existsb (passed kw) ps | None => false end.
+
+Lemma exec_eq b ra kw :
+  exec b ra kw =
+  if given ra && has_flat b kw then ORaiseValue else
+  match b_coerce b, ra with
+  | CSame, RMsg m => finish_ b kw false m
+  | CSame, RNone => finish_ b kw true empty_req
+  | CSame, RDict d => finish_ b kw true d
+  | CCross, RDict d => finish_ b kw false d
+  | CCross, RNone => finish_ b kw true empty_req
+  | CCross, RMsg m => if msg_falsy (b_proto_plus b) m then finish_ b kw true empty_req else finish_ b kw false m
+  | CCrossCtor _, RDict d => finish_ b kw false d
+  | CCrossCtor ctor, RNone => build_ b kw ctor
+  | CCrossCtor ctor, RMsg m => if msg_falsy (b_proto_plus b) m then build_ b kw ctor else finish_ b kw false m
+  end.
+Proof. reflexivity. Qed.
+
+Lemma guard_has v m cross pp inf kw : has_flat (emit v m cross pp inf) kw = existsb (passed kw) (names m).
+Proof. destruct v; unfold has_flat; simpl; destruct m; reflexivity. Qed.
+
+Lemma emit_params v m cross pp inf : b_params (emit v m cross pp inf) = names m.
+Proof. destruct v; reflexivity. Qed.
+Lemma sync_coerce m cross pp inf : b_coerce (emit_sync m cross pp inf) = if cross then CCross else CSame.
+Proof. reflexivity. Qed.
+Lemma async_coerce m cross pp inf : b_coerce (emit_async m cross pp inf) = if cross then CCrossCtor (ctor_list m) else CSame.
+Proof. reflexivity. Qed.
+Lemma sync_place m cross pp inf : b_place (emit_sync m cross pp inf) = PInFresh.
+Proof. reflexivity. Qed.
+Lemma async_place m cross pp inf : b_place (emit_async m cross pp inf) = PTop.
+Proof. reflexivity. Qed.
+Lemma emit_pp v m cross pp inf : b_proto_plus (emit v m cross pp inf) = pp.
+Proof. destruct v; reflexivity. Qed.
+Lemma emit_inf v m cross pp inf : b_input_fields (emit v m cross pp inf) = inf.
+Proof. destruct v; reflexivity. Qed.
+
+(* 1. both templates offer the flattened fields, and nothing else, in the order of the mapping *)
+Lemma params_in_declared_order sch input cross sigs m :
+  fields_mapping sch input cross sigs = Some m ->
+  (forall v pp inf, b_params (emit v m cross pp inf) = map (fun kf => r_name (snd kf)) m) /\
+  (exists items,
+     items = flat_map (item_list sch input cross) (filter (fun p => negb (is_empty p)) (all_pieces sigs)) /\
+     map fst m = dedup_first [] (map fst items) /\
+     (forall k, assoc k m = assoc k (rev items))) /\
+  NoDup (map fst m).
+Proof.
+  intro H. split; [intros; apply emit_params|].
+  destruct (fields_mapping_spec _ _ _ _ _ H) as [items (E & K & ND & V)].
+  split; [exists items; auto | assumption].
+Qed.
+
+(* 2. a request together with any flattened argument: ValueError, and nothing is sent *)
+Lemma mixed_raises_before_send v m cross pp inf ra kw :
+  ra <> RNone -> (exists p, In p (names m) /\ passed kw p = true) ->
+  exec (emit v m cross pp inf) ra kw = ORaiseValue.
+Proof.
+  intros Hra [p [Hp Pp]]. rewrite exec_eq, guard_has.
+  assert (H : existsb (passed kw) (names m) = true) by (apply existsb_exists; eauto).
+  rewrite H. destruct ra; [contradiction| |]; reflexivity.
+Qed.
+
+(* without flattened fields there is no check and nothing to mix *)
+Lemma no_fields_no_guard v cross pp inf : b_guard (emit v [] cross pp inf) = None /\ b_params (emit v [] cross pp inf) = [].
+Proof. destruct v; split; reflexivity. Qed.
+
+Lemma names_in m a : (exists kf, In kf m /\ ap_param a = r_name (snd kf)) -> In (ap_param a) (names m).
+Proof. intros [kf [H E]]. rewrite E. unfold names. apply in_map_iff. eauto. Qed.
+
+Lemma covers_idle m l kw :
+  covers m l -> existsb (passed kw) (names m) = false -> forall a, In a l -> fires a kw = None.
+Proof.
+  intros (_ & F & _) H a Ha. destruct (F a Ha) as [kf [Hkf (Hp & _)]].
+  unfold fires. destruct (assoc (ap_param a) kw) eqn:E; [|reflexivity].
+  exfalso. assert (X : existsb (passed kw) (names m) = true); [|congruence].
+  apply existsb_exists. exists (ap_param a). split.
+  - apply names_in. eauto.
+  - unfold passed. now rewrite E.
+Qed.
+
+Lemma ctor_names m inf b : b_input_fields b = inf -> ctor_ok m inf -> ctor_names_ok b (ctor_list m) = true.
+Proof.
+  intros <- C. unfold ctor_names_ok. apply forallb_forall. intros a Ha. unfold ctor_list in Ha. apply in_map_iff in Ha as [kf [<- Hkf]].
+  simpl. apply mem_str_In. now apply C.
+Qed.
+
+Local Opaque emit_sync emit_async.
+
+(* the list of applications that builds the request of a kwargs call *)
+Definition built_by (v : variant) (m : fm) (cross pp : bool) (inf : list string) : list app :=
+  match v, cross with
+  | Async, true => ctor_list m
+  | _, _ => b_apps (emit v m cross pp inf)
+  end.
+
+Lemma built_by_covers v m cross pp inf :
+  NoDup (map fst m) -> fm_wf m -> (v = Async -> cross = true -> ctor_ok m inf) -> covers m (built_by v m cross pp inf).
+Proof.
+  intros ND WF C. destruct v, cross; simpl.
+  - now apply covers_sync. - now apply covers_sync.
+  - apply (covers_ctor m inf); auto. - now apply covers_async.
+Qed.
+
+Lemma exec_kwargs v m cross pp inf kw :
+  (v = Async -> cross = true -> ctor_ok m inf) ->
+  exec (emit v m cross pp inf) RNone kw = apply_apps (built_by v m cross pp inf) kw empty_req.
+Proof.
+  intro C. rewrite exec_eq. simpl. destruct v; simpl.
+  - rewrite sync_coerce. destruct cross; unfold finish_; now rewrite sync_place.
+  - rewrite async_coerce. destruct cross.
+    + unfold build_. rewrite (ctor_names m inf (emit_async m true pp inf) (emit_inf Async m true pp inf) (C eq_refl eq_refl)). reflexivity.
+    + unfold finish_. now rewrite async_place.
+Qed.
+
+Lemma apply_idle m l kw r :
+  covers m l -> existsb (passed kw) (names m) = false -> apply_apps l kw r = OSend r.
+Proof.
+  intros CL H. unfold apply_apps.
+  destruct (run_apps_idle l kw r (covers_idle m l kw CL H)) as [E1 E2]. now rewrite E2, E1.
+Qed.
+
+(* a request (message or dict) and no flattened argument: the message is sent as it is, except that a
+   cross-package proto-plus request without any set field is replaced by a new empty message *)
+Lemma exec_given v m cross pp inf ra kw :
+  NoDup (map fst m) -> fm_wf m -> (v = Async -> cross = true -> ctor_ok m inf) ->
+  existsb (passed kw) (names m) = false ->
+  match ra with
+  | RNone => True
+  | RDict d => exec (emit v m cross pp inf) ra kw = OSend d
+  | RMsg r => exec (emit v m cross pp inf) ra kw = OSend (if cross && msg_falsy pp r then empty_req else r)
+  end.
+Proof.
+  intros ND WF C H. destruct ra as [|d|r]; [exact I| |]; rewrite exec_eq, guard_has, H, andb_false_r.
+  - destruct v; simpl.
+    + rewrite sync_coerce. destruct cross; unfold finish_; rewrite sync_place; [reflexivity|].
+      apply (apply_idle m); auto. now apply covers_sync.
+    + rewrite async_coerce. destruct cross; unfold finish_; rewrite async_place.
+      * rewrite async_cross_no_apps. reflexivity.
+      * apply (apply_idle m); auto. now apply covers_async.
+  - rewrite (emit_pp v). destruct v; simpl.
+    + rewrite sync_coerce. destruct cross; simpl; unfold finish_; rewrite sync_place; [|reflexivity].
+      destruct (msg_falsy pp r); [|reflexivity]. apply (apply_idle m); auto. now apply covers_sync.
+    + rewrite async_coerce. destruct cross; simpl.
+      * destruct (msg_falsy pp r).
+        -- unfold build_. rewrite (ctor_names m inf (emit_async m true pp inf) (emit_inf Async m true pp inf) (C eq_refl eq_refl)).
+           apply (apply_idle m); auto. apply (covers_ctor m inf); auto.
+        -- unfold finish_. rewrite async_place, async_cross_no_apps. reflexivity.
+      * unfold finish_. rewrite async_place. apply (apply_idle m); auto. now apply covers_async.
+Qed.
+
+Lemma passed_nil l : existsb (passed []) l = false.
+Proof. induction l; [reflexivity|assumption]. Qed.
+
+(* 3. flattened_equiv *)
+Lemma flattened_equiv v m cross pp inf kw :
+  NoDup (map fst m) -> fm_wf m -> kw_wf m kw -> no_empty_dotted m kw ->
+  (v = Async -> cross = true -> ctor_ok m inf) ->
+  exists r1 r2,
+    exec (emit v m cross pp inf) RNone kw = OSend r1 /\
+    exec (emit v m cross pp inf) (RMsg (request_of m kw)) [] = OSend r2 /\
+    req_equiv r1 (request_of m kw) /\
+    (r2 = request_of m kw \/
+     (cross = true /\ pp = true /\ entries (request_of m kw) = [] /\ r2 = empty_req)).
+Proof.
+  intros ND WF W E C.
+  pose proof (covers_spec m ND) as CS.
+  pose proof (built_by_covers v m cross pp inf ND WF C) as CB.
+  exists (run_apps (built_by v m cross pp inf) kw empty_req).
+  exists (if cross && msg_falsy pp (request_of m kw) then empty_req else request_of m kw).
+  split; [|split; [|split]].
+  - rewrite (exec_kwargs v m cross pp inf kw C). unfold apply_apps. now rewrite (covers_typed m kw _ W CB).
+  - apply (exec_given v m cross pp inf (RMsg (request_of m kw)) [] ND WF C (passed_nil _)).
+  - apply (covers_equiv m kw _ (spec_apps m)); assumption.
+  - destruct (cross && msg_falsy pp (request_of m kw)) eqn:F; [|now left]. right.
+    apply andb_true_iff in F as [-> F]. unfold msg_falsy in F. apply andb_true_iff in F as [-> F].
+    destruct (entries (request_of m kw)); [auto|discriminate].
+Qed.
+
+(* 4. sync and asyncio clients agree *)
+Definition outcome_equiv (a b : outcome) : Prop :=
+  match a, b with
+  | OSend x, OSend y => req_equiv x y
+  | ORaiseValue, ORaiseValue => True
+  | ORaiseCtor, ORaiseCtor => True
+  | ORaiseType, ORaiseType => True
+  | _, _ => False
+  end.
+
+Lemma sync_async_agree m cross pp inf ra kw :
+  NoDup (map fst m) -> fm_wf m -> kw_wf m kw -> no_empty_dotted m kw ->
+  (cross = true -> ctor_ok m inf) ->
+  outcome_equiv (exec (emit Sync m cross pp inf) ra kw) (exec (emit Async m cross pp inf) ra kw).
+Proof.
+  intros ND WF W E C.
+  assert (CS : Sync = Async -> cross = true -> ctor_ok m inf) by discriminate.
+  assert (CA : Async = Async -> cross = true -> ctor_ok m inf) by (intros _; exact C).
+  destruct ra as [|d|r].
+  - rewrite (exec_kwargs Sync m cross pp inf kw CS), (exec_kwargs Async m cross pp inf kw CA).
+    pose proof (built_by_covers Sync m cross pp inf ND WF CS) as B1.
+    pose proof (built_by_covers Async m cross pp inf ND WF CA) as B2.
+    unfold apply_apps. rewrite (covers_typed m kw _ W B1), (covers_typed m kw _ W B2). simpl.
+    apply (covers_equiv m kw); assumption.
+  - destruct (existsb (passed kw) (names m)) eqn:H.
+    + assert (X : exists p, In p (names m) /\ passed kw p = true) by (apply existsb_exists in H; exact H).
+      rewrite (mixed_raises_before_send Sync m cross pp inf (RDict d) kw); [|discriminate|assumption].
+      rewrite (mixed_raises_before_send Async m cross pp inf (RDict d) kw); [|discriminate|assumption]. exact I.
+    + rewrite (exec_given Sync m cross pp inf (RDict d) kw ND WF CS H).
+      rewrite (exec_given Async m cross pp inf (RDict d) kw ND WF CA H). simpl. apply req_equiv_refl.
+  - destruct (existsb (passed kw) (names m)) eqn:H.
+    + assert (X : exists p, In p (names m) /\ passed kw p = true) by (apply existsb_exists in H; exact H).
+      rewrite (mixed_raises_before_send Sync m cross pp inf (RMsg r) kw); [|discriminate|assumption].
+      rewrite (mixed_raises_before_send Async m cross pp inf (RMsg r) kw); [|discriminate|assumption]. exact I.
+    + rewrite (exec_given Sync m cross pp inf (RMsg r) kw ND WF CS H).
+      rewrite (exec_given Async m cross pp inf (RMsg r) kw ND WF CA H). simpl. apply req_equiv_refl.
+Qed.
+
+Local Transparent emit_sync emit_async.
+
+(* ================================================================================================ *)
+(* F. witnesses: the hypotheses hold of concrete mappings; the unrestricted statements are refuted  *)
+(* ================================================================================================ *)
+Local Open Scope string_scope.
+
+Definition scalar (n : string) := mkField n TScalar false false false false.
+Definition rscalar (n : string) := mkField n TScalar true false false false.
+Definition msgf (n t : string) := mkField n (TMessage t) false false false true.
+
+(* a same-package request with a reserved name, a dotted path, a repeated field, a map and repeated Value *)
+Definition ex_inner : message := mkMsg true [scalar "title"; rscalar "tags"; scalar "class"].
+Definition ex_req : message :=
+  mkMsg true [scalar "name"; scalar "class"; msgf "book" ".p.Inner"; rscalar "names";
+              mkField "labels" (TMessage ".p.Req.LabelsEntry") true true false false;
+              mkField "values" (TMessage ".google.protobuf.Value") true false true false;
+              msgf "other" ".p.Inner"; scalar "retry"].
+Definition ex_sch : schema := [(".p.Inner", ex_inner); (".p.Req", ex_req)].
+Definition ex_sigs : list string := ["name, class"; " book.title ,names,,"; "labels,values,book.class"; "name"].
+
+Definition ex_m : fm :=
+  match fields_mapping ex_sch ex_req false ex_sigs with Some m => m | None => [] end.
+
+Definition nodupb_keys (m : fm) : bool := nodupb (map fst m).
+Lemma nodupb_NoDup l : nodupb l = true -> NoDup l.
+Proof.
+  induction l as [|x l IH]; simpl; intro H; [constructor|].
+  apply andb_true_iff in H as [H1 H2]. constructor; [|auto].
+  apply negb_true_iff in H1. now apply mem_str_false.
+Qed.
+
+Definition ex_kw : kwargs :=
+  [("name", LS "sn1"); ("class_", LS ""); ("title", LS "st"); ("names", LL ["=sa"; "=sb"]); ("labels", LD [("=sk", "=sv")]);
+   ("values", LL ["mGgF2"])].
+
+Lemma ex_mapping :
+  fields_mapping ex_sch ex_req false ex_sigs = Some ex_m /\
+  map fst ex_m = ["name"; "class_"; "book.title"; "names"; "labels"; "values"; "book.class_"] /\
+  names ex_m = ["name"; "class_"; "title"; "names"; "labels"; "values"; "class_"] /\
+  block_ok (emit Sync ex_m false true (ctor_fields ex_req)) = false.
+Proof. vm_compute. repeat split. Qed.
+(* the last line: book.class and class both want the parameter class_ : the duplicate-parameter defect *)
+
+Definition ex_sigs2 : list string := ["name, class"; " book.title ,names,,"; "labels,values"; "name"].
+Definition ex_m2 : fm := match fields_mapping ex_sch ex_req false ex_sigs2 with Some m => m | None => [] end.
+
+Lemma ex_hypotheses :
+  fields_mapping ex_sch ex_req false ex_sigs2 = Some ex_m2 /\
+  NoDup (map fst ex_m2) /\ fm_wf ex_m2 /\ kw_wf ex_m2 ex_kw /\ no_empty_dotted ex_m2 ex_kw /\
+  block_ok (emit Sync ex_m2 false true (ctor_fields ex_req)) = true /\
+  block_ok (emit Async ex_m2 false true (ctor_fields ex_req)) = true /\
+  (exists r, exec (emit Sync ex_m2 false true (ctor_fields ex_req)) RNone ex_kw = OSend r /\
+             lookup "book.title" r = Some (LS "st") /\ lookup "class_" r = None /\ vivified "book" r = true /\
+             lookup "values" r = Some (LL ["mGgF2"])) /\
+  exec (emit Async ex_m2 false true (ctor_fields ex_req)) (RMsg empty_req) ex_kw = ORaiseValue.
+Proof.
+  split; [vm_compute; reflexivity|]. split; [apply nodupb_NoDup; vm_compute; reflexivity|].
+  split; [apply (fields_mapping_wf ex_sch ex_req false ex_sigs2); vm_compute; reflexivity|].
+  split.
+  { intros kf v Hin Ha. vm_compute in Hin.
+    repeat (destruct Hin as [<-|Hin]; [vm_compute in Ha; inversion Ha; subst; split; [reflexivity|intros d Hd; inversion Hd; subst; repeat constructor; simpl; intuition discriminate]|]).
+    contradiction. }
+  split.
+  { intros kf v Hin Ha D K. vm_compute in Hin.
+    repeat (destruct Hin as [<-|Hin]; [vm_compute in Ha; inversion Ha; subst; try reflexivity; vm_compute in D; try discriminate; destruct K as [K|K]; vm_compute in K; discriminate|]).
+    contradiction. }
+  split; [vm_compute; reflexivity|]. split; [vm_compute; reflexivity|].
+  split; [eexists; split; [vm_compute; reflexivity|vm_compute; repeat split]|vm_compute; reflexivity].
+Qed.
+
+(* cross-package request (plain protobuf): name, two repeated scalars, a dotted scalar *)
+Definition ex_sub : message := mkMsg false [scalar "text"].
+Definition ex_common : message :=
+  mkMsg false [scalar "name"; rscalar "tags"; rscalar "nums"; msgf "sub" ".c.Sub"; scalar "text"].
+Definition ex_csch : schema := [(".c.Sub", ex_sub); (".c.Common", ex_common)].
+Definition cm (sigs : list string) : fm := match fields_mapping ex_csch ex_common true sigs with Some m => m | None => [] end.
+
+Lemma ex_cross_hypotheses :
+  let m := cm ["name, tags"; "sub"] in
+  fields_mapping ex_csch ex_common true ["name, tags"; "sub"] = Some m /\
+  map fst m = ["name"; "tags"] /\ NoDup (map fst m) /\ fm_wf m /\ ctor_ok m (ctor_fields ex_common) /\
+  block_ok (emit Sync m true false (ctor_fields ex_common)) = true /\
+  exec (emit Sync m true false (ctor_fields ex_common)) RNone [("tags", LL ["=sa"])] = OSend (mkReq [("tags", LL ["=sa"])] []) /\
+  exec (emit Async m true false (ctor_fields ex_common)) RNone [("tags", LL ["=sa"])] = OSend (mkReq [("tags", LL ["=sa"])] []).
+Proof.
+  simpl. split; [vm_compute; reflexivity|]. split; [vm_compute; reflexivity|].
+  split; [apply nodupb_NoDup; vm_compute; reflexivity|].
+  split; [apply (fields_mapping_wf ex_csch ex_common true ["name, tags"; "sub"]); vm_compute; reflexivity|].
+  split.
+  { intros kf Hin. vm_compute in Hin. repeat (destruct Hin as [<-|Hin]; [vm_compute; repeat split; auto|]). contradiction. }
+  repeat split; vm_compute; reflexivity.
+Qed.
+
+(* --- refutations: each is replayed on the implementation by the check (harness/gv/props/c05.py, WITNESSES) --- *)
+
+(* two repeated fields of a cross-package request: the second "if" line is emitted with a stray space *)
+Lemma indent_refuted :
+  exists m, fields_mapping ex_csch ex_common true ["name,tags,nums"] = Some m /\
+            sig_ok (emit Sync m true false (ctor_fields ex_common)) = true /\
+            keys_ok (emit Sync m true false (ctor_fields ex_common)) = true /\
+            block_ok (emit Sync m true false (ctor_fields ex_common)) = false.
+Proof. eexists. split; [vm_compute; reflexivity|]. vm_compute. repeat split. Qed.
+
+(* asyncio, cross-package, dotted path: the constructor is called with the last path segment as keyword *)
+Lemma async_cross_dotted_refuted :
+  exists m, fields_mapping ex_csch (mkMsg false [scalar "name"; msgf "sub" ".c.Sub"]) true ["name,sub.text"] = Some m /\
+    let inf := ["name"; "sub"] in
+    exec (emit Sync m true false inf) RNone [] = OSend empty_req /\
+    exec (emit Async m true false inf) RNone [] = ORaiseCtor /\
+    exec (emit Async m true false inf) (RDict empty_req) [] = OSend empty_req.
+Proof. eexists. split; [vm_compute; reflexivity|]. vm_compute. repeat split. Qed.
+
+(* ... and when the last segment happens to name a top-level field, that field is set instead *)
+Lemma async_cross_dotted_wrong_field_refuted :
+  exists m, fields_mapping ex_csch ex_common true ["sub.text"] = Some m /\
+    let inf := ctor_fields ex_common in
+    (exists r, exec (emit Sync m true false inf) RNone [("text", LS "sx")] = OSend r /\ lookup "sub.text" r = Some (LS "sx") /\ lookup "text" r = None) /\
+    (exists r, exec (emit Async m true false inf) RNone [("text", LS "sx")] = OSend r /\ lookup "sub.text" r = None /\ lookup "text" r = Some (LS "sx")).
+Proof. eexists. split; [vm_compute; reflexivity|]. simpl. split; eexists; (split; [vm_compute; reflexivity|vm_compute; split; reflexivity]). Qed.
+
+(* a dotted path through a reserved word: request.class.title is not Python *)
+Lemma reserved_segment_refuted :
+  exists m, fields_mapping ex_sch (mkMsg true [msgf "class" ".p.Inner"]) false ["class.title"] = Some m /\
+            map fst m = ["class.title"] /\ keys_ok (emit Sync m false true ["class_"]) = false /\ keys_ok (emit Async m false true ["class_"]) = false.
+Proof. eexists. split; [vm_compute; reflexivity|]. vm_compute. repeat split. Qed.
+
+(* a flattened field called retry: duplicate argument *)
+Lemma control_name_refuted :
+  exists m, fields_mapping ex_sch ex_req false ["name,retry"] = Some m /\
+            sig_ok (emit Sync m false true (ctor_fields ex_req)) = false /\ sig_ok (emit Async m false true (ctor_fields ex_req)) = false.
+Proof. eexists. split; [vm_compute; reflexivity|]. vm_compute. split; reflexivity. Qed.
+
+(* two paths with the same last segment: duplicate argument *)
+Lemma duplicate_param_refuted :
+  exists m, fields_mapping ex_sch ex_req false ["book.title,other.title"] = Some m /\
+            NoDup (map fst m) /\ sig_ok (emit Sync m false true (ctor_fields ex_req)) = false.
+Proof. eexists. split; [vm_compute; reflexivity|]. split; [apply nodupb_NoDup; vm_compute; reflexivity|vm_compute; reflexivity]. Qed.
+
+(* an empty list for a dotted repeated field: the sync client materialises the parent message, the asyncio client does not *)
+Lemma empty_container_dotted_refuted :
+  exists m, fields_mapping ex_sch ex_req false ["name,book.tags"] = Some m /\
+    let inf := ctor_fields ex_req in
+    let kw := [("tags", LL [])] in
+    (exists r1 r2, exec (emit Sync m false true inf) RNone kw = OSend r1 /\ exec (emit Async m false true inf) RNone kw = OSend r2 /\
+                   vivified "book" r1 = true /\ vivified "book" r2 = false /\ vivified "book" (request_of m kw) = true).
+Proof. eexists. split; [vm_compute; reflexivity|]. simpl. eexists. eexists. split; [vm_compute; reflexivity|]. split; [vm_compute; reflexivity|]. vm_compute. repeat split. Qed.
